@@ -857,7 +857,7 @@ pub fn main(ctx: &Ctx) {
     ctx.assume("non-interference of search results and counts is judged only while every document is still in the exhaustively scanned recent-write tier (no drain, bulk load or restart before the search), so HNSW approximation cannot raise an alarm");
     ctx.assume("the server is the repository's kyrodb_server.rs compiled in the harness workspace against the same engine library; tier timeouts are 30 s");
     run_committed_replays(ctx, &C10);
-    run_pbt(ctx, &C10, ctx.tier.pick(240, 4_000));
+    run_pbt(ctx, &C10, ctx.tier.pick(480, 8_000));
 }
 
 pub fn replay(ctx: &Ctx, v: &serde_json::Value) -> Option<i32> {
